@@ -21,17 +21,37 @@
 #include <sys/socket.h>
 #include <stdexcept>
 #include <unordered_map>
+#include <tbox/event/timer_event.h>
+#include <sys/epoll.h>
+#include <sys/select.h>
+#include <sys/syscall.h>
+#include "probe.h"
 using namespace tbox::event;
 
-enum K { ENABLE, DISABLE, FEED, DRAIN, PASS, REINIT_FD, REINIT_MASK, RECREATE, CLOSE_PEER, REUSE, CLOSE_EN, REOPEN };
+// Deviation seam: the harness defines select() and epoll_wait() itself (the loops' calls bind to these); the next call can be made to FAIL once
+// (EINTR: nothing is reported, the sets / the array are left untouched), otherwise the real system call runs.
+static int g_fail_wait = 0;
+extern "C" int select(int n, fd_set *r, fd_set *w, fd_set *e, struct timeval *t) {
+  if (g_fail_wait) { errno = g_fail_wait; g_fail_wait = 0; return -1; }
+  return (int)syscall(SYS_select, n, r, w, e, t); }
+extern "C" int epoll_wait(int epfd, struct epoll_event *evs, int maxevents, int timeout) {
+  if (g_fail_wait) { errno = g_fail_wait; g_fail_wait = 0; return -1; }
+  return (int)syscall(SYS_epoll_wait, epfd, evs, maxevents, timeout); }
+
+// private members that only feed the canonical state key are read through probes: a renamed field degrades the key (see vf_any_missing below), not the build
+VF_PROBE(fd_) VF_PROBE(events_) VF_PROBE(is_stop_after_trigger_) VF_PROBE(fd_data_map_) VF_PROBE(free_number_)
+VF_PROBE(ref) VF_PROBE(read_event_num) VF_PROBE(write_event_num) VF_PROBE(except_event_num) VF_PROBE(fd_events) VF_PROBE(ev)
+
+enum K { ENABLE, DISABLE, FEED, DRAIN, PASS, REINIT_FD, REINIT_MASK, RECREATE, CLOSE_PEER, REUSE, CLOSE_EN, REOPEN, PASS_EINTR, FILL, UNFILL };
 enum A { NONE, DIS_SELF, DIS_TGT, DESTROY_TGT, ENABLE_TGT, DESTROY_TGT_NEW, DESTROY_TGT_CLOSE, DIS_TGT_EN_THIRD, DESTROY_TGT_EN_THIRD,
-         ENABLE_SELF, DIS_EN_TGT, REINIT_TGT_EN, DESTROY_TGT_NEW_SAME };
-static const char *kN[] = {"enable", "disable", "feed", "drain", "pass", "reinit-next-fd", "reinit-next-mask", "recreate", "close-peer", "close-fd+enable+reopen-same-number", "close-fd+enable", "reopen-same-number"};
+         ENABLE_SELF, DIS_EN_TGT, REINIT_TGT_EN, DESTROY_TGT_NEW_SAME, REINIT_SELF_EN, DESTROY_TGT_REINIT_SELF };
+static const char *kN[] = {"enable", "disable", "feed", "drain", "pass", "reinit-next-fd", "reinit-next-mask", "recreate", "close-peer", "close-fd+enable+reopen-same-number", "close-fd+enable", "reopen-same-number", "pass-with-the-wait-call-failing-EINTR", "fill-socket", "unfill-socket"};
 static const char *aN[] = {"none", "disable-self", "disable", "destroy", "enable", "destroy+new-event-on-3rd-fd", "destroy+close-fd", "disable+enable-the-third-event", "destroy+enable-the-third-event",
-                           "rearm-self", "disable+enable", "move-to-3rd-fd+enable", "destroy+new-event-on-same-fd"};
+                           "rearm-self", "disable+enable", "move-to-3rd-fd+enable", "destroy+new-event-on-same-fd", "move-self-to-3rd-fd+enable", "destroy+move-self-to-3rd-fd+enable"};
 struct Op { int k, a; };
 struct Script { int e, act, tgt; };
 static const int NE = 3, ND = 3, NCFG = 7;
+static const int TIMER = NE + 1;      // script 'actor' that is not a descriptor event: a 0 ms timer whose callback runs between the harvest (select/epoll_wait) and the dispatch
 struct EvCfg { int d; short mask; bool oneshot; };
 static const short R = FdEvent::kReadEvent, W = FdEvent::kWriteEvent, E = FdEvent::kExceptEvent;
 // descriptors: 0,1,2 = read ends of pipes (configs 2..4: descriptor 0 = one end of a socketpair); 2 is never fed
@@ -52,7 +72,7 @@ static short next_mask(short m) { return m == R ? W : m == W ? (short)(R | W) : 
 
 struct Call { int e; short m; };
 struct World {
-  Loop *loop = nullptr; bool is_epoll = false; int cfg = 0;
+  Loop *loop = nullptr; bool is_epoll = false; int cfg = 0, variant = 0;
   int rd[ND], wr[ND]; bool closed[ND] = {false, false, false}, peer_closed[ND] = {false, false, false};
   FdEvent *ev[NE + 1]; bool alive[NE + 1], en[NE + 1], oneshot[NE + 1]; short mask[NE + 1]; int d[NE + 1];
   int pending = -1;          // descriptor that was closed under a disabled event and is waiting to be re-opened with the same number
@@ -60,7 +80,8 @@ struct World {
   short snap[ND]; std::string viol; unsigned called = 0;     // bit e: the callback of event e was entered at least once
   std::vector<std::vector<Call>> passes;     // callbacks delivered, per pass
   std::vector<std::vector<Call>> expected;   // the model's exact callback set of the pass (valid when exact[p])
-  std::vector<char> exact, indep;            // per pass: the model knows the exact set / the pass cannot depend on the serving order
+  std::vector<char> exact, indep, skip;      // per pass: the model knows the exact set / the pass cannot depend on the serving order / injected wait failure (nothing is demanded)
+  std::vector<Call> cur_exp; int cur_nd = 0; bool cur_inexact = false;      // the running pass: model's due set, number of served descriptors, 'the model cannot predict it exactly'
 };
 
 static short ready_bits(short snap) { short r = 0; if (snap & (POLLIN | POLLHUP)) r |= R; if (snap & POLLOUT) r |= W; if (snap & (POLLERR | POLLPRI)) r |= E; return r; }
@@ -105,6 +126,10 @@ static void on_cb(World &w, const Script &sc, int e, short m) {
       if (w.alive[t] && t != e) { int nd = w.d[t] != 2 ? 2 : CFG[w.cfg][t].d;
         if (!w.closed[nd]) { w.ev[t]->disable(); w.en[t] = false; reinit_event(w, t, nd, w.mask[t]); w.ev[t]->enable(); w.en[t] = true; } }
       break;
+    case REINIT_SELF_EN: case DESTROY_TGT_REINIT_SELF: {      // the running event moves ITSELF to the third descriptor: the record under dispatch may lose its last reference during its own dispatch
+      if (sc.act == DESTROY_TGT_REINIT_SELF && t != e && w.alive[t]) destroy_event(w, t);
+      int nd = w.d[e] != 2 ? 2 : CFG[w.cfg][e].d;
+      if (!w.closed[nd]) { w.ev[e]->disable(); w.en[e] = false; reinit_event(w, e, nd, w.mask[e]); w.ev[e]->enable(); w.en[e] = true; } } break;
     case DIS_TGT_EN_THIRD: case DESTROY_TGT_EN_THIRD: { int third = 3 - e - t;      // the event that is neither the running one nor the target
       if (t != e && w.alive[t]) { if (sc.act == DIS_TGT_EN_THIRD) { w.ev[t]->disable(); w.en[t] = false; } else destroy_event(w, t); }
       if (third >= 0 && third < NE && third != e && w.alive[third]) { w.ev[third]->enable(); w.en[third] = true; } } break;
@@ -115,6 +140,28 @@ static void on_cb(World &w, const Script &sc, int e, short m) {
         if (sc.act == DESTROY_TGT_NEW_SAME && !w.alive[NE] && !w.closed[w.d[t]]) { make_event(w, sc, NE, w.d[t], w.mask[t], false); w.ev[NE]->enable(); w.en[NE] = true; } }
       break;
   }
+}
+
+// the model's view of a pass: who is enabled and ready now. A descriptor is (possibly) SERVED in this pass if it has an enabled subscriber and is ready
+// for a subscribed condition or hung up / in error (epoll reports HUP/ERR whatever the interest is)
+static void compute_expected(World &w) {
+  w.cur_exp.clear(); w.cur_nd = 0; bool dseen[ND] = {false, false, false};
+  for (int e = 0; e <= NE; e++) if (w.alive[e] && w.en[e]) { short hit = (short)(w.mask[e] & ready_bits(w.snap[w.d[e]]));
+    if (hit) w.cur_exp.push_back(Call{e, hit});
+    if ((hit || (w.snap[w.d[e]] & (POLLHUP | POLLERR))) && !dseen[w.d[e]]) { dseen[w.d[e]] = true; w.cur_nd++; } }
+}
+// timer scripts: the action runs in a timer callback, i.e. after the back-end has harvested the ready descriptors and before it dispatches any of them
+static void timer_action(World &w, const Script &sc) {
+  w.called |= 1u << TIMER; if (!w.viol.empty()) return; int t = sc.tgt;
+  switch (sc.act) {
+    case DIS_TGT: if (w.alive[t]) { w.ev[t]->disable(); w.en[t] = false; } break;
+    case DESTROY_TGT: if (w.alive[t]) destroy_event(w, t); break;
+    case DESTROY_TGT_NEW_SAME: if (w.alive[t]) { destroy_event(w, t); w.cur_inexact = true;      // a subscriber added after the harvest: whether it is served in this pass is back-end specific
+        if (!w.alive[NE] && !w.closed[w.d[t]]) { make_event(w, sc, NE, w.d[t], w.mask[t], false); w.ev[NE]->enable(); w.en[NE] = true; } } break;
+    case REINIT_TGT_EN: if (w.alive[t]) { int nd = w.d[t] != 2 ? 2 : CFG[w.cfg][t].d; w.cur_inexact = true;
+        if (!w.closed[nd]) { w.ev[t]->disable(); w.en[t] = false; reinit_event(w, t, nd, w.mask[t]); w.ev[t]->enable(); w.en[t] = true; } } break;
+  }
+  if (!w.cur_inexact) compute_expected(w);      // only removals: the due set is what is left
 }
 
 static bool self_only(int act) { return act == NONE || act == DIS_SELF || act == ENABLE_SELF; }
@@ -128,26 +175,31 @@ static std::string epoll_kernel_view(World &w, int epfd) {
   fclose(f); std::sort(items.begin(), items.end());
   std::string s; for (auto &i : items) s += i + ","; return s;
 }
-template <class LoopT, class EvT> static std::string impl_key(World &w) {
+template <class LoopT, class EvT, class RecT> static std::string impl_key(World &w, std::unordered_map<int, RecT *> &map_out) {
   auto *l = static_cast<LoopT *>(w.loop); std::string c;
-  for (int e = 0; e <= NE; e++) if (w.alive[e]) { auto *x = static_cast<EvT *>(w.ev[e]); int di = -1; for (int i = 0; i < ND; i++) if (w.rd[i] == x->fd_) di = i;
-    char b[48]; snprintf(b, sizeof b, "i%d:%d.%x.%d%d;", e, di, (unsigned)x->events_, (int)x->is_stop_after_trigger_, (int)x->is_enabled_); c += b; }
+  for (int e = 0; e <= NE; e++) if (w.alive[e]) { auto *x = static_cast<EvT *>(w.ev[e]); int xfd = VF_GET(fd_, *x, -2), di = -1; for (int i = 0; i < ND; i++) if (w.rd[i] == xfd) di = i;
+    char b[48]; snprintf(b, sizeof b, "i%d:%d.%x.%d%d;", e, di, VF_GET(events_, *x, 0u), (int)VF_GET(is_stop_after_trigger_, *x, false), (int)x->isEnabled()); c += b; }
+  map_out = VF_GET(fd_data_map_, *l, (std::unordered_map<int, RecT *>()));
   std::vector<std::string> recs;
-  for (auto &kv : l->fd_data_map_) { int di = -1; for (int i = 0; i < ND; i++) if (w.rd[i] == kv.first) di = i;
-    std::string r = std::to_string(di) + ":" + std::to_string(kv.second->ref) + "," + std::to_string(kv.second->read_event_num) + "," + std::to_string(kv.second->write_event_num) + "," + std::to_string(kv.second->except_event_num) + "[";
-    for (auto *p : kv.second->fd_events) { int idx = -1; for (int e = 0; e <= NE; e++) if (w.alive[e] && static_cast<EvT *>(w.ev[e]) == p) idx = e; r += idx < 0 ? std::string("?") : std::to_string(idx); }   // ORDER of the subscribers matters for the dispatch
+  for (auto &kv : map_out) { int di = -1; for (int i = 0; i < ND; i++) if (w.rd[i] == kv.first) di = i; RecT &rec = *kv.second;
+    std::string r = std::to_string(di) + ":" + std::to_string(VF_GET(ref, rec, 0)) + "," + std::to_string(VF_GET(read_event_num, rec, 0)) + "," + std::to_string(VF_GET(write_event_num, rec, 0)) + "," + std::to_string(VF_GET(except_event_num, rec, 0)) + "[";
+    for (auto *p : VF_GET(fd_events, rec, std::vector<EvT *>())) { int idx = -1; for (int e = 0; e <= NE; e++) if (w.alive[e] && static_cast<EvT *>(w.ev[e]) == p) idx = e; r += idx < 0 ? std::string("?") : std::to_string(idx); }   // ORDER of the subscribers matters for the dispatch
     recs.push_back(r + "]"); }
   std::sort(recs.begin(), recs.end()); c += "#" + std::to_string(recs.size()); for (auto &r : recs) c += r;
-  auto &pool = l->fd_shared_data_pool_; c += "~" + std::to_string(pool.free_number_) + "/" + std::to_string(pool.stat_.total_alloc_times - pool.stat_.total_free_times);
+  auto &pool = l->fd_shared_data_pool_; auto st = pool.getStat(); c += "~" + std::to_string(VF_GET(free_number_, pool, (size_t)0)) + "/" + std::to_string(st.total_alloc_times - st.total_free_times);
   return c;
 }
 
 // variant 0: per-fd records de-pooled; variant 1: pool as shipped + 2-entry epoll_wait array
 static std::string run_engine(const char *eng, int variant, int cfg, const Script &sc, const std::vector<Op> &h, World &w) {
-  w.loop = Loop::New(eng); w.is_epoll = !strcmp(eng, "epoll"); w.cfg = cfg;
+  w.loop = Loop::New(eng); w.is_epoll = !strcmp(eng, "epoll"); w.cfg = cfg; w.variant = variant;
   if (variant == 0) { if (w.is_epoll) static_cast<EpollLoop *>(w.loop)->fd_shared_data_pool_.keep_number_ = 0; else static_cast<SelectLoop *>(w.loop)->fd_shared_data_pool_.keep_number_ = 0; }
   else if (w.is_epoll) static_cast<EpollLoop *>(w.loop)->max_loop_entries_ = 2;
-  for (int i = 0; i < ND; i++) { int p[2]; if (is_socket(cfg, i)) { if (socketpair(AF_UNIX, SOCK_STREAM | SOCK_NONBLOCK, 0, p)) abort(); } else { if (pipe2(p, O_NONBLOCK)) abort(); } w.rd[i] = p[0]; w.wr[i] = p[1]; }
+  for (int i = 0; i < ND; i++) { int p[2]; if (is_socket(cfg, i)) { if (socketpair(AF_UNIX, SOCK_STREAM | SOCK_NONBLOCK, 0, p)) abort(); } else { if (pipe2(p, O_NONBLOCK)) abort(); }
+    // variant 1: descriptor numbers DESCEND with the descriptor index (select serves d2, d1, d0) and leave holes below them, so that the loop's own wake-up
+    // eventfd (created by every runLoop) gets the LOWEST number; in variant 0 numbers ascend and the wake-up fd is the highest
+    if (variant == 1) { int hi = fcntl(p[0], F_DUPFD, 200 - 20 * i); if (hi < 0) abort(); close(p[0]); p[0] = hi; }
+    w.rd[i] = p[0]; w.wr[i] = p[1]; }
   for (int e = 0; e < NE; e++) make_event(w, sc, e, CFG[cfg][e].d, CFG[cfg][e].mask, CFG[cfg][e].oneshot);
   w.alive[NE] = false; w.ev[NE] = nullptr; w.en[NE] = false; w.d[NE] = 2; w.mask[NE] = 0; w.oneshot[NE] = false;
   try {
@@ -161,6 +213,8 @@ static std::string run_engine(const char *eng, int variant, int cfg, const Scrip
         case REINIT_MASK: if (w.alive[o.a] && !w.closed[w.d[o.a]]) reinit_event(w, o.a, w.d[o.a], next_mask(w.mask[o.a])); break;
         case RECREATE: if (!w.closed[CFG[cfg][o.a].d]) { if (w.alive[o.a]) destroy_event(w, o.a); make_event(w, sc, o.a, CFG[cfg][o.a].d, CFG[cfg][o.a].mask, CFG[cfg][o.a].oneshot); } break;
         case CLOSE_PEER: if (!w.peer_closed[o.a] && !is_socket(cfg, o.a)) { close(w.wr[o.a]); w.peer_closed[o.a] = true; } break;
+        case FILL: if (is_socket(cfg, 0) && !w.closed[0]) { static char big[65536]; while (write(w.rd[0], big, sizeof big) > 0) {} while (write(w.rd[0], big, 1) > 0) {} } break;      // our end of the socket stops being writable
+        case UNFILL: if (is_socket(cfg, 0) && !w.peer_closed[0]) { static char big[65536]; while (read(w.wr[0], big, sizeof big) > 0) {} } break;
         case REUSE: case CLOSE_EN: {      // the kernel refuses (or not) an enable(): the descriptor of a disabled event is closed first; the model follows enable()'s RETURN VALUE
           int e = o.a; if (!w.alive[e] || w.en[e] || w.pending >= 0 || w.closed[w.d[e]]) break;
           bool busy = false; for (int x = 0; x <= NE; x++) if (w.alive[x] && w.en[x] && w.d[x] == w.d[e]) busy = true; if (busy) break;      // never close under an enabled event
@@ -172,21 +226,23 @@ static std::string run_engine(const char *eng, int variant, int cfg, const Scrip
           int dd = w.pending, p[2]; if (is_socket(cfg, dd)) { if (socketpair(AF_UNIX, SOCK_STREAM | SOCK_NONBLOCK, 0, p)) abort(); } else { if (pipe2(p, O_NONBLOCK)) abort(); }
           if (p[0] != w.rd[dd]) { if (dup3(p[0], w.rd[dd], 0) < 0) abort(); close(p[0]); }
           w.wr[dd] = p[1]; w.closed[dd] = false; w.peer_closed[dd] = false; w.pending = -1; } break;
-        case PASS: {
+        case PASS: case PASS_EINTR: {
           for (int i = 0; i < ND; i++) { w.snap[i] = 0; if (w.closed[i]) continue; struct pollfd pf = {w.rd[i], POLLIN | POLLOUT | POLLPRI, 0}; poll(&pf, 1, 0); w.snap[i] = pf.revents; }
-          // the model's view of the pass: who is enabled and ready now; nothing but the script's actor can change that during the pass
-          // a descriptor is (possibly) SERVED in this pass if it has an enabled subscriber and is ready for a subscribed condition or hung up / in error
-          // (epoll reports HUP/ERR whatever the interest is)
-          std::vector<Call> exp; int nd = 0; bool dseen[ND] = {false, false, false};
-          for (int e = 0; e <= NE; e++) if (w.alive[e] && w.en[e]) { short hit = (short)(w.mask[e] & ready_bits(w.snap[w.d[e]]));
-            if (hit) exp.push_back(Call{e, hit});
-            if ((hit || (w.snap[w.d[e]] & (POLLHUP | POLLERR))) && !dseen[w.d[e]]) { dseen[w.d[e]] = true; nd++; } }
+          w.cur_inexact = (o.k == PASS_EINTR); compute_expected(w);
           w.passes.emplace_back();
+          TimerEvent *tm = nullptr;
+          if (sc.e == TIMER) { tm = w.loop->newTimerEvent("t"); tm->initialize(std::chrono::milliseconds(0), Event::Mode::kOneshot); World *pw = &w; const Script *ps = &sc; tm->setCallback([pw, ps] { timer_action(*pw, *ps); }); tm->enable(); }
+          if (o.k == PASS_EINTR) g_fail_wait = EINTR;      // the wait call of this pass reports failure: whatever the loop does then, nobody whose descriptor is not ready may be called
           w.loop->runNext([] {}); w.loop->runLoop(Loop::Mode::kOnce);
-          // nothing but the script's actor changes anything during a pass: if the actor was not called (or acts only on itself) the model's set is exact
+          if (g_fail_wait) { g_fail_wait = 0; if (w.viol.empty()) w.viol = "harness-error:injected-wait-failure-was-not-consumed"; }
+          delete tm;
+          // nothing but the script's actor changes anything during a pass: if the actor was not called (or acts only on itself, or acted before the dispatch
+          // and only removed subscribers) the model's set is exact
           bool actor_called = false; for (auto &c : w.passes.back()) if (c.e == sc.e) actor_called = true;
-          bool ex = (self_only(sc.act) || !actor_called) && !w.tainted;
-          w.expected.push_back(exp); w.exact.push_back(ex); w.indep.push_back(!w.tainted && (ex || nd <= 1));
+          bool trunc = w.is_epoll && w.variant == 1 && w.cur_nd > 2;      // more served descriptors than the 2-entry array holds: the rest is served by the next pass
+          bool ex = (sc.e == TIMER || self_only(sc.act) || !actor_called) && !w.tainted && !w.cur_inexact && !trunc;
+          w.expected.push_back(w.cur_exp); w.exact.push_back(ex); w.indep.push_back(!w.tainted && !w.cur_inexact && !trunc && (ex || w.cur_nd <= 1)); w.skip.push_back(o.k == PASS_EINTR);
+          const std::vector<Call> &exp = w.cur_exp;
           if (w.viol.empty() && ex) {      // callbacks never drain, so every enabled subscriber of a ready descriptor is due exactly once, with exactly its ready conditions
             auto key = [](std::vector<Call> v) { std::vector<int> k; for (auto &c : v) k.push_back(c.e * 8 + c.m); std::sort(k.begin(), k.end()); return k; };
             if (key(exp) != key(w.passes.back())) { std::string s = "callbacks-differ-from-the-enabled-and-ready-set expected="; for (auto &c : exp) s += "e" + std::to_string(c.e) + "/" + std::to_string(c.m) + ","; s += "_got="; for (auto &c : w.passes.back()) s += "e" + std::to_string(c.e) + "/" + std::to_string(c.m) + ","; w.viol = s; }
@@ -199,12 +255,18 @@ static std::string run_engine(const char *eng, int variant, int cfg, const Scrip
   std::string c; for (int e = 0; e <= NE; e++) { char b[48]; snprintf(b, sizeof b, "%d%d%d.%x|", (int)w.alive[e], (int)w.en[e], w.alive[e] ? w.d[e] : 0, w.alive[e] ? (unsigned)w.mask[e] : 0u); c += b; }
   c += w.tainted ? 'T' : 't'; c += (char)('0' + w.pending + 1);
   // ... kernel readiness ...
-  for (int i = 0; i < ND; i++) { if (w.closed[i]) { c += 'X'; continue; } struct pollfd pf = {w.rd[i], POLLIN, 0}; poll(&pf, 1, 0); c += (pf.revents & POLLIN) ? 'R' : '-'; if (pf.revents & POLLHUP) c += 'H'; if (w.peer_closed[i]) c += 'c'; }
+  for (int i = 0; i < ND; i++) { if (w.closed[i]) { c += 'X'; continue; } struct pollfd pf = {w.rd[i], POLLIN, 0}; poll(&pf, 1, 0); c += (pf.revents & POLLIN) ? 'R' : '-'; if (pf.revents & POLLHUP) c += 'H'; { struct pollfd po = {w.rd[i], POLLOUT, 0}; poll(&po, 1, 0); if (po.revents & POLLOUT) c += 'W'; } if (w.peer_closed[i]) c += 'c'; }
   // ... and the back-end's bookkeeping (stale records / counters / list order / kernel registration are the failure modes)
   if (w.viol.empty()) {
-    if (w.is_epoll) { c += impl_key<EpollLoop, EpollFdEvent>(w); auto *l = static_cast<EpollLoop *>(w.loop); c += "@"; { std::vector<std::string> v; for (auto &kv : l->fd_data_map_) { int di = -1; for (int i = 0; i < ND; i++) if (w.rd[i] == kv.first) di = i; char b[48]; snprintf(b, sizeof b, "%d=%x,", di, (unsigned)kv.second->ev.events); v.push_back(b); } std::sort(v.begin(), v.end()); for (auto &x : v) c += x; }
-      c += "@k" + epoll_kernel_view(w, l->epollFd()); }
-    else c += impl_key<SelectLoop, SelectFdEvent>(w);
+    if (w.is_epoll) { std::unordered_map<int, EpollFdSharedData *> m; c += impl_key<EpollLoop, EpollFdEvent, EpollFdSharedData>(w, m); auto *l = static_cast<EpollLoop *>(w.loop); c += "@";
+      { std::vector<std::string> v; for (auto &kv : m) { int di = -1; for (int i = 0; i < ND; i++) if (w.rd[i] == kv.first) di = i; char b[48]; snprintf(b, sizeof b, "%d=%x,", di, (unsigned)VF_GET(ev, *kv.second, epoll_event()).events); v.push_back(b); } std::sort(v.begin(), v.end()); for (auto &x : v) c += x; }
+      c += "@k" + epoll_kernel_view(w, l->epollFd());
+      // the kernel's ready list ORDER decides who is served first in the next pass (level-triggered: looking at it does not consume anything)
+      struct epoll_event evs[8]; int n = (int)syscall(SYS_epoll_wait, l->epollFd(), evs, 8, 0); c += "@o";
+      for (int i = 0; i < n; i++) { int di = -1; for (auto &kv : m) if ((void *)kv.second == evs[i].data.ptr) for (int k = 0; k < ND; k++) if (w.rd[k] == kv.first) di = k; c += (char)('0' + di + 1); } }
+    else { std::unordered_map<int, SelectFdSharedData *> m; c += impl_key<SelectLoop, SelectFdEvent, SelectFdSharedData>(w, m); }
+    // a probed member is missing: the key can no longer tell some states apart -> do not merge histories that end differently
+    if (vf_any_missing()) { c += "!"; for (size_t i = h.size() > 3 ? h.size() - 3 : 0; i < h.size(); i++) { c += (char)('a' + h[i].k); c += (char)('0' + h[i].a); } }
   }
   for (int e = 0; e <= NE; e++) if (w.alive[e]) delete w.ev[e];
   delete w.loop; for (int i = 0; i < ND; i++) { if (!w.closed[i]) close(w.rd[i]); if (!w.peer_closed[i]) close(w.wr[i]); }
@@ -213,8 +275,9 @@ static std::string run_engine(const char *eng, int variant, int cfg, const Scrip
 
 // scripts that are also explored with the life-cycle menu (lane 1): the ones that keep the pass exactly predictable,
 // plus plain destroy / enable of another event (record reference counting after a re-initialisation)
-static bool ext_lane_script(const Script &sc) { return self_only(sc.act) || sc.act == DESTROY_TGT || sc.act == ENABLE_TGT; }
+static bool ext_lane_script(const Script &sc) { return sc.e != TIMER && (self_only(sc.act) || sc.act == DESTROY_TGT || sc.act == ENABLE_TGT); }
 static bool is_ext(int k) { return k == REINIT_FD || k == REINIT_MASK || k == RECREATE || k == CLOSE_PEER || k == REUSE || k == CLOSE_EN || k == REOPEN; }
+static bool has_pass(const std::vector<Op> &h) { for (auto &o : h) if (o.k == PASS || o.k == PASS_EINTR) return true; return false; }
 
 // configuration automorphisms: a script that is the image of an earlier script under a renaming of identical events explores an isomorphic history set
 static bool is_symmetric_image(int cfg, const Script &sc, const std::vector<Script> &all, int idx) {
@@ -222,7 +285,7 @@ static bool is_symmetric_image(int cfg, const Script &sc, const std::vector<Scri
   do {
     bool ident = true, autom = true; for (int e = 0; e < NE; e++) { if (perm[e] != e) ident = false; const EvCfg &a = CFG[cfg][e], &b = CFG[cfg][perm[e]]; if (a.d != b.d || a.mask != b.mask || a.oneshot != b.oneshot) autom = false; }
     if (ident || !autom) continue;
-    for (int j = 0; j < idx; j++) if (all[j].act == sc.act && all[j].e == perm[sc.e] && all[j].tgt == perm[sc.tgt]) return true;
+    for (int j = 0; j < idx; j++) if (all[j].act == sc.act && all[j].e == (sc.e < NE ? perm[sc.e] : sc.e) && all[j].tgt == perm[sc.tgt]) return true;
   } while (std::next_permutation(perm, perm + NE));
   return false;
 }
@@ -245,6 +308,8 @@ int main(int argc, char **argv) {
   std::vector<Script> scripts; scripts.push_back({0, NONE, 0});
   for (int e = 0; e < NE; e++) { scripts.push_back({e, DIS_SELF, e}); for (int t = 0; t < NE; t++) if (t != e) for (int a : {DIS_TGT, DESTROY_TGT, ENABLE_TGT, DESTROY_TGT_NEW, DESTROY_TGT_CLOSE, DIS_TGT_EN_THIRD, DESTROY_TGT_EN_THIRD}) scripts.push_back({e, a, t}); }
   for (int e = 0; e < NE; e++) { scripts.push_back({e, ENABLE_SELF, e}); for (int t = 0; t < NE; t++) if (t != e) for (int a : {DIS_EN_TGT, REINIT_TGT_EN, DESTROY_TGT_NEW_SAME}) scripts.push_back({e, a, t}); }
+  for (int e = 0; e < NE; e++) { scripts.push_back({e, REINIT_SELF_EN, e}); for (int t = 0; t < NE; t++) if (t != e) scripts.push_back({e, DESTROY_TGT_REINIT_SELF, t}); }
+  for (int t = 0; t < NE; t++) for (int a : {DESTROY_TGT, DESTROY_TGT_NEW_SAME, REINIT_TGT_EN}) scripts.push_back({TIMER, a, t});      // acted from a timer callback between harvest and dispatch
   signal(SIGPIPE, SIG_IGN);
   const int nvariants = (int)hx::env_int("VERIF_C03_VARIANTS", 2);
   const int ext_max = (int)hx::env_int("VERIF_C03_EXT_MAX", 2);          // bound: life-cycle operations per history
@@ -252,6 +317,7 @@ int main(int argc, char **argv) {
   const bool split_reuse = hx::env_int("VERIF_C03_SPLIT_REUSE", 0) != 0;          // also offer close+enable and re-open as two operations (anything may happen in between)
   // A loop pass while a subscribed descriptor is closed: DEFAULT OFF, because the unchanged select back-end then runs removeInvalidFds() (see the report / check.py)
   const bool pass_on_closed = hx::env_int("VERIF_C03_PASS_ON_CLOSED_FD", 0) != 0;
+  const bool feed3 = hx::env_int("VERIF_C03_FEED3", 0) != 0, eintr_lane1 = hx::env_int("VERIF_C03_EINTR_LANE1", 0) != 0;      // wider life-cycle lane (thorough tier)
   const bool share = hx::env_int("VERIF_C03_SHARE", 1) != 0, batch = hx::env_int("VERIF_C03_GROUP", 1) != 0;
   const pid_t parent = getpid();
   double deadline = hx::deadline_from_env(600);
@@ -271,14 +337,17 @@ int main(int argc, char **argv) {
     ex.menu = [&](const std::vector<Op> &h) {
       // harness-side facts that do not involve the code under test: a pipe that already holds a byte is not fed again, an empty one is not drained
       // (once a descriptor has been replaced the harness no longer knows which pipe holds what, and offers everything)
-      bool fed[2] = {false, false}, pc[2] = {false, false}, replaced = false, pend = false; int next = 0;
+      const int nfeed = (lane == 1 && feed3) ? 3 : 2;      // the life-cycle lane can also feed / hang up the third descriptor (events get there by re-initialisation; VERIF_C03_FEED3, thorough tier)
+      bool fed[3] = {false, false, false}, pc[3] = {false, false, false}, replaced = false, pend = false, filled = false, failed = false; int next = 0;
       for (auto &o : h) { if (o.k == FEED && !pc[o.a]) fed[o.a] = true; if (o.k == DRAIN) fed[o.a] = false; if (o.k == CLOSE_PEER) pc[o.a] = true; if (is_ext(o.k) && o.k != REOPEN) next++;
+        if (o.k == FILL) filled = true; if (o.k == UNFILL) filled = false; if (o.k == PASS_EINTR) failed = true;
         if (o.k == REUSE || o.k == CLOSE_EN) replaced = true; if (o.k == CLOSE_EN) pend = true; if (o.k == REOPEN) pend = false; }
       std::vector<Op> m; for (int e = 0; e < NE; e++) { m.push_back({ENABLE, e}); m.push_back({DISABLE, e}); }
-      for (int p = 0; p < 2; p++) { if (replaced || (!fed[p] && !pc[p])) m.push_back({FEED, p}); if (replaced || fed[p]) m.push_back({DRAIN, p}); }
-      if (!pend || pass_on_closed) m.push_back({PASS, 0});
+      for (int p = 0; p < nfeed; p++) { if (replaced || (!fed[p] && !pc[p])) m.push_back({FEED, p}); if (replaced || fed[p]) m.push_back({DRAIN, p}); }
+      if (lane == 0 && is_socket(cfg, 0)) { if (replaced || !filled) m.push_back({FILL, 0}); if (replaced || filled) m.push_back({UNFILL, 0}); }      // write-readiness of the socket goes away and comes back
+      if (!pend || pass_on_closed) { m.push_back({PASS, 0}); if (!failed && (lane == 0 || eintr_lane1)) m.push_back({PASS_EINTR, 0}); }      // bound: one injected wait failure per history
       if (lane == 1 && pend) m.push_back({REOPEN, 0});      // (does not count against the life-cycle bound: a closed descriptor can always be re-opened)
-      if (lane == 1 && next < ext_max) { for (int e = 0; e < NE; e++) { m.push_back({REINIT_FD, e}); m.push_back({REINIT_MASK, e}); m.push_back({RECREATE, e}); } for (int p = 0; p < 2; p++) if (!is_socket(cfg, p) && (replaced || !pc[p])) m.push_back({CLOSE_PEER, p});
+      if (lane == 1 && next < ext_max) { for (int e = 0; e < NE; e++) { m.push_back({REINIT_FD, e}); m.push_back({REINIT_MASK, e}); m.push_back({RECREATE, e}); } for (int p = 0; p < nfeed; p++) if (!is_socket(cfg, p) && (replaced || !pc[p])) m.push_back({CLOSE_PEER, p});
         if (!pend) for (int e = 0; e < NE; e++) { m.push_back({REUSE, e}); if (split_reuse) m.push_back({CLOSE_EN, e}); } }
       return m; };
     ex.sig = [](const std::string &v) { std::string s = v.substr(0, v.find(' ')); return s; };
@@ -290,13 +359,15 @@ int main(int argc, char **argv) {
       for (int i = 1; i < 2 * nvariants && viol.empty(); i++) {
         auto key = [](std::vector<Call> v) { std::vector<int> k; for (auto &c : v) k.push_back(c.e * 8 + c.m); std::sort(k.begin(), k.end()); return k; };
         for (size_t p = 0; p < w[0].passes.size() && p < w[i].passes.size(); p++) {
+          if (w[0].skip[p] || w[i].skip[p]) { if (w[0].passes[p].empty() && w[i].passes[p].empty()) continue; break; }      // injected wait failure: nothing is demanded, but if somebody was called the worlds may differ from here on
           if (!w[0].indep[p] || !w[i].indep[p]) break;
           if (key(w[0].passes[p]) != key(w[i].passes[p])) { viol = std::string("backends-disagree ") + tags[0] + "-vs-" + tags[i] + " pass " + std::to_string(p); break; }
         } }
       return canon; };
     std::vector<std::vector<Op>> group;      // what the next child executes
     auto lookup = [&](const std::string &hk, Res &out) {
-      auto it = g_shared.find(hk); if (it != g_shared.end() && (sc.act == NONE || !(it->second.called & (1u << sc.e)))) { out = it->second; return true; }
+      bool timer_pass = sc.e == TIMER && (hk.find((char)('a' + PASS)) != std::string::npos || hk.find((char)('a' + PASS_EINTR)) != std::string::npos);      // a timer script's timer runs in every pass
+      auto it = g_shared.find(hk); if (!timer_pass && it != g_shared.end() && (sc.act == NONE || !(it->second.called & (1u << sc.e)))) { out = it->second; return true; }
       auto io = g_own.find(std::to_string(si) + ":" + hk); if (io != g_own.end()) { out = io->second; return true; }
       auto ip = g_pending.find(hk); if (ip != g_pending.end()) { out = ip->second; return true; }
       return false; };
@@ -336,8 +407,8 @@ int main(int argc, char **argv) {
       else {      // somebody in the group kills the child: one child per history
         g_regroup++; std::vector<std::vector<Op>> all = group; std::vector<std::string> allk = keys;
         for (size_t i = 0; i < all.size(); i++) { group.assign(1, all[i]); g_evals++;
-          bool has_pass = false; for (auto &o : all[i]) if (o.k == PASS) has_pass = true;      // no pass, no callback: the crash cannot involve the script
-          if (run_group(out, crash)) store(allk[i], out[0]); else store(allk[i], Res{"", crash.empty() ? std::string("crash:incomplete-result") : crash, has_pass ? ~0u : 0u}); } }
+          bool hp = has_pass(all[i]);      // no pass, no callback: the crash cannot involve the script
+          if (run_group(out, crash)) store(allk[i], out[0]); else store(allk[i], Res{"", crash.empty() ? std::string("crash:incomplete-result") : crash, hp ? ~0u : 0u}); } }
       if (!lookup(hk, r)) { viol = "harness-error:group-did-not-contain-the-history"; return ""; }
       viol = r.viol; return r.canon; };
     g_pending.clear();
